@@ -406,7 +406,8 @@ def scope_cases(names):
             cs.append(('let m = module {%s = 2} => { let res = %s; };\n%slet i = m{};' % (n, n, G), None))      # a parameter is reached through `mod` only
             cs.append(('let m = module {p = 2} => { let %s = mod.p; };\nlet i = m{};\n%slet leak = mod;' % (n, G), None))
             # rebinding, whatever the two bindings are
-            kinds = ['let %s = 1;', 'let %s = "s";', 'let %s = func(z) => z;', 'let %s = module {p = 1} => { let w = mod.p; };', 'constraint %s = 1;']
+            kinds = ['let %s = 1;', 'let %s = "s";', 'let %s = func(z) => z;', 'let %s = module {p = 1} => { let w = mod.p; };', 'constraint %s = 1;',
+                     'let %s = NULL;', 'let %s = {};', 'let %s = [];', 'let %s = false;', 'let %s = 0;', 'let %s = "";']
             for k1 in kinds:
                 for k2 in kinds:
                     cs.append(('%s\n%s%s' % (k1 % n, G, k2 % n), None))
